@@ -5,10 +5,10 @@ from impl import *  # noqa
 from twisted.internet import task, defer
 
 ID = "C05"
-PROOF_MODULES = ["VncProofs.C05"]
+PROOF_MODULES = ["VncProofs.C05", "VncProofs.C05Sys"]
 THEOREMS = ["Vnc.C05_init", "Vnc.C05_mask_eq", "Vnc.C05_step", "Vnc.C05_invariant", "Vnc.C05_click", "Vnc.C05_setBtn_testBit",
             "Vnc.C05_clearBtn_testBit", "Vnc.C05_drag_zero", "Vnc.C05_drag_last", "Vnc.C05_drag_mask", "Vnc.C05_drag_points",
-            "Vnc.C05_range", "Vnc.C05_drag_on_segment", "Vnc.C05_drag_in_box", "Vnc.C05_drag_monotone", "Vnc.C05_in_range", "Vnc.C05_wire"]
+            "Vnc.C05_range", "Vnc.C05_drag_on_segment", "Vnc.C05_drag_in_box", "Vnc.C05_drag_monotone", "Vnc.C05_in_range", "Vnc.C05_wire", "Vnc.C05_sys_consistent", "Vnc.C05_sys_remembers"]
 TRUSTED = [
     "Lean 4.33 kernel; standard axioms only",
     "VncModel/Pointer.lean is tied to client.py mouseMove/mouseDown/mouseUp/mousePress/mouseDrag + rfb.pointerEvent by this correspondence run",
